@@ -55,6 +55,10 @@ MEMBERS = {
     "as_list_map": dict(model="ML", recipe="[name_mapping(ML, as_list=True, map={'a': 2, 'c_d': 0})]", layout={"a": (2,), "b_": (1,), "c_d": (0,)}),
     "list_gaps": dict(model="ML", recipe="[name_mapping(ML, map={'a': 2, 'b_': 0, 'c_d': 4})]", layout={"a": (2,), "b_": (0,), "c_d": (4,)}),
     "list_in_dict": dict(model="ML", recipe="[name_mapping(ML, map={'a': ('p', 0), 'b_': ('p', 1), 'c_d': 'c'})]", layout={"a": ("p", 0), "b_": ("p", 1), "c_d": ("c",)}),
+    "req_two_crowns": dict(model="ML", recipe="[name_mapping(ML, map={'a': ('p', 'q'), 'b_': ('r', 's'), 'c_d': 'c'})]",
+                           layout={"a": ("p", "q"), "b_": ("r", "s"), "c_d": ("c",)}, always_nodes=True),
+    "req_three_levels": dict(model="ML", recipe="[name_mapping(ML, map={'a': ('p', 'q', 'z'), 'b_': ('p', 'w'), 'c_d': ('r', 's')}, extra_in=ExtraForbid())]",
+                             layout={"a": ("p", "q", "z"), "b_": ("p", "w"), "c_d": ("r", "s")}, extra_in="forbid", always_nodes=True),
     "dict_in_list": dict(model="ML", recipe="[name_mapping(ML, map={'a': (0, 'k'), 'b_': (0, 'm'), 'c_d': 1})]", layout={"a": (0, "k"), "b_": (0, "m"), "c_d": (1,)}),
 }
 for _m in MEMBERS.values():
@@ -412,7 +416,7 @@ def build_node(tree, pres, vals, xn, nk, depth, state):
                 leafs = leaf_fields(ch)
                 is_first = not state.get("done")
                 if is_first: state["done"] = True
-                if any(pres[f] for f in leafs) or (is_first and (xn or nk)):
+                if any(pres[f] for f in leafs) or (is_first and (xn or nk)) or state.get("always_nodes"):
                     sub = build_node(ch, pres, vals, False, 0, depth + 1, state)
                     if is_first:
                         if nk == 1: sub = None
@@ -447,7 +451,7 @@ def leaf_fields(tree):
 def build_data(member, tree, p0, p1, p2, v0, v1, v2, x0, x1, xn, nk, rk, trunc):
     pres = {"a": p0, "b_": p1, "c_d": p2}
     vals = {"a": v0, "b_": v1, "c_d": v2}
-    data = build_node(tree, pres, vals, xn, nk, 0, {})
+    data = build_node(tree, pres, vals, xn, nk, 0, {"always_nodes": member.get("always_nodes", False)})
     if tree["kind"] == "dict":
         if x0: data["zz"] = 1
         if x1:
